@@ -44,6 +44,7 @@ def world():
     w['S'] = z3.Function('S', INT, INT)
     w['pos'] = z3.Function('pos', INT, INT)
     w['size'] = z3.Function('size', INT, INT)
+    w['TF'] = z3.Function('TF', INT, INT)        # tfdt stored in fragment k of the file
     w['Mof'] = z3.Function('Mof', INT, INT)      # segment index get_segment_index returns (skolem function of its result)
     w['Lof'] = z3.Function('Lof', INT, INT)      # loop index get_segment_index ends in (skolem function of its ghost L)
     i = z3.Int('i!ax')
@@ -285,6 +286,7 @@ def msi(mode, kind):
         last = 'sn + ((ts * E) // 1000000) // sd'
         must, may = avail(tc)
         outside = f'(({num}) < {first} or ({num}) > {last})'
+        spec = {'tc': tc, 'num': num, 'must': must, 'may': may, 'outside': outside}
         c = Contract(
             key=f'{MRQ}:LiveMedia.calculate_media_segment_index', variant=f'{mode}-{kind}',
             props=['C01', 'C16'], env=env,
@@ -297,6 +299,7 @@ def msi(mode, kind):
         )
     else:
         outside = f'(({num}) < sn or ({num}) > sn + n - 1)'
+        spec = {'tc': tc, 'num': num, 'outside': outside}
         c = Contract(
             key=f'{MRQ}:LiveMedia.calculate_media_segment_index', variant=f'{mode}-{kind}',
             props=['C06', 'C16'], env=env,
@@ -307,10 +310,119 @@ def msi(mode, kind):
             canaries=['result[0] == 1'],
             witness_terms=witness(('seg_num', 'seg_time')),
         )
+    c.spec = spec
     return c
 
 
 MSI = [msi('live', 'number'), msi('live', 'time'), msi('vod', 'number'), msi('vod', 'time')]
+for _c in MSI:
+    # at a call site: which variant fits, and what a call returns (the postconditions constrain it)
+    _c.applies = (lambda m, k: lambda fr: (fr['mode'] == 'live') == (m == 'live') and
+                  ((fr['seg_time'] is None) if k == 'number' else (fr['seg_num'] is None)))(*_c.variant.split('-'))
+    _c.result = lambda eng, frame: (fresh('mod_segment'), fresh('origin_time'), fresh('seg_num_out'))
+
+
+# ----------------------------------------------------------------------------- the media-segment handler (glue)
+# MediaRequestBase.generate_media_segment: index function (callee contract) -> which stored fragment is loaded ->
+# tfdt += origin, mfhd.sequence_number = number -> encode -> response.  Observables: the fragment index handed to
+# load_fragment (ghost served_mod), and the sequence number / decode time present in the atom when it is encoded.
+class EncodedAtom:
+    """dest = io.BytesIO() ... atom.encode(dest): remembers the header values that were encoded"""
+    py_types = ('BytesIO',)
+
+    def __init__(self):
+        self.snapshot = None
+
+    def method(self, eng, name, args, kwargs, e):
+        if name == 'getvalue' and self.snapshot is not None:
+            return self.snapshot
+        raise Unsupported(f'BytesIO.{name}')
+
+
+def gms_models(with_sidx):
+    def load_fragment(eng, e, a, kw):
+        w = eng.world
+        mod = a[1]
+        eng.ghost_env['served_mod'] = zint(mod)
+        tfdt = Obj('TfdtBox', {'base_media_decode_time': w['TF'](zint(mod))})
+        traf = Obj('TrackFragmentBox', {'tfdt': tfdt})
+        moof = Obj('MovieFragmentBox', {'mfhd': Obj('MfhdBox', {'sequence_number': z3.Int('stored_seq')}), 'traf': traf})
+        f = {'moof': moof}
+        if with_sidx:
+            f['sidx'] = Opaque('sidx')
+        return Obj('Wrapper', f)
+
+    def encode(eng, e, a, kw):
+        atom = eng.eval(e.func.value)
+        moof = atom.f['moof']
+        a[0].snapshot = Obj('EncodedSegment', {
+            'sequence_number': moof.f['mfhd'].f['sequence_number'],
+            'tfdt': moof.f['traf'].f['tfdt'].f['base_media_decode_time'],
+            'has_sidx': 'sidx' in atom.f, '__len__': fresh('encoded_len')})
+
+    def make_response(eng, e, a, kw):
+        v = a[0]
+        if isinstance(v, tuple) and len(v) == 3:
+            return Obj('Response', {'data': v[0], 'status': v[1], 'headers': v[2]})
+        return Obj('Response', {'data': a[0], 'status': a[1], 'headers': {}})
+    return {
+        'self.check_for_synthetic_http_error': lambda eng, e, a, kw: None,       # region: no injected error asked for
+        'adp_set.compute_av_values': lambda eng, e, a, kw: None,
+        'adp_set.set_dash_timing': lambda eng, e, a, kw: None,
+        'datetime.datetime.now': lambda eng, e, a, kw: DT(z3.Int('now')),
+        'UTC': lambda eng, e, a, kw: Opaque('utc'),
+        'self.load_fragment': load_fragment,
+        'EventFactory.create_event_generators': lambda eng, e, a, kw: PyList([]),   # region: no inband events asked for
+        'io.BytesIO': lambda eng, e, a, kw: EncodedAtom(),
+        'atom.encode': encode,
+        'self.get_http_range': lambda eng, e, a, kw: (None, None, 200, {}),        # region: no Range header (see C13)
+        'content_type_to_mime_type': lambda eng, e, a, kw: Opaque('mime'),
+        'add_allowed_origins': lambda eng, e, a, kw: None,
+        'flask.make_response': make_response,
+    }
+
+
+def gms(mode, kind, content_type, with_sidx=True):
+    callee = next(c for c in MSI if c.variant == f'{mode}-{kind}')
+    sp = callee.spec
+
+    def env(w):
+        rep = rep_obj(w, mode)
+        rep.f['encrypted'] = False
+        return {'self': Obj('LiveMedia', {}), 'stream': Obj('Stream', {'timing_reference': ref_obj(w)}),
+                'media_file': Obj('MediaFile', {'representation': rep, 'content_type': content_type, 'track_id': w['track_id'],
+                                                'name': Opaque('name'), 'codec_fourcc': Opaque('fourcc')}),
+                'mode': mode,
+                'options': Obj('OptionsContainer', {'mode': mode, 'segmentTimeline': kind == 'time', 'videoCorruption': None}),
+                'seg_num': z3.Int('seg_num') if kind == 'number' else None,
+                'seg_time': z3.Int('seg_time') if kind == 'time' else None}
+    origin = '(result.data.tfdt - TF(served_mod))'
+    served = [('served_number', f"result.data.sequence_number == {sp['num']}"), ('no_sidx', 'not result.data.has_sidx'),
+              ('stored_segment', '1 <= served_mod and served_mod <= n')]
+    if mode == 'live':
+        status = [('refused_must', f"result.status == 404 if ({sp['must']}) or {sp['outside']} else True"),
+                  ('refused_may', f"(({sp['may']}) or {sp['outside']}) if result.status == 404 else True")]
+        served += [(lab, t) for lab, t in gsi(sp['tc'], 'served_mod', f'({origin} + S(served_mod - 1))', origin) if lab != 'start']
+    else:
+        status = [('refused', f"(result.status == 404) == ({sp['outside']})")]
+        served += [('served_fragment', f"served_mod == ({sp['num']}) - sn + 1"), ('served_time', 'result.data.tfdt == TF(served_mod)')]
+    return Contract(
+        key=f'{MRQ}:MediaRequestBase.generate_media_segment', variant=f'{mode}-{kind}-{content_type}{"" if with_sidx else "-nosidx"}',
+        props=['C02', 'C16', 'C01' if mode == 'live' else 'C06'], env=env,
+        requires=list(callee.requires),
+        models=gms_models(with_sidx),
+        ctors={'AdaptationSet': lambda eng, a, kw: Obj('AdaptationSet', {'content_type': kw['content_type'],
+                                                                         'representations': PyList([])}),
+               'DashTiming': lambda eng, a, kw: timing_obj(eng.world, mode)},
+        ensures=[('status', 'result.status == 404 or result.status == 200')] + status +
+                [(lab, f'True if result.status == 404 else ({t})') for lab, t in served],
+        canaries=['result.status == 404'],
+        witness_terms=witness(('seg_num', 'seg_time', 'stored_seq')),
+    )
+
+
+GMS = [gms('live', 'number', 'audio'), gms('live', 'time', 'video'), gms('vod', 'number', 'video', with_sidx=False),
+       gms('vod', 'time', 'audio')]
 
 
 # ----------------------------------------------------------------------------- SegmentList (on-demand byte ranges)
@@ -630,7 +742,7 @@ GROUP = Group(
     world=world,
     contracts=[MEDIA_DURATION_USING_TIMESCALE, GET_SEGMENT_INDEX, CALC_SEGMENT_FROM_TIMECODE, TIMESCALE_TO_TIMEDELTA,
                FL_LIVE, FL_VOD, SNT_LIVE_NUMBER, SNT_LIVE_TIME, SNT_VOD_NUMBER, SNT_VOD_TIME] + MSI +
-              [GENERATE_SEGMENT_LIST, timeline('live'), timeline('vod')],
+              [GENERATE_SEGMENT_LIST, timeline('live'), timeline('vod')] + GMS,
     lemmas=[
         Lemma('time_exact', ['C02'], lemma_time_exact),
         Lemma('prefix_step', ['C02'], lemma_prefix_monotone),
